@@ -22,7 +22,7 @@ pub static DEF: PropDef = PropDef {
     real: &["ExecutionContext (set / get / clear / clone_with / borrow_with / take_with / new_with, guard Drop)", "Array / Map / TypedArray / TypedMap constructors", "Filter::execute / FilterValue::execute scheme binding", "context deserialisation"],
     stub: &["user functions and list matchers (harness plug-ins with fault points)", "byte source (FaultyReader)", "thread scheduler for the two-task phase"],
     assumptions: &["get_field_value / get_list_matcher with a foreign handle are documented-by-construction asserts and are not in the operation pool", "executing a filter that reads an unset mandatory field panics by design; probes run only when every mandatory field is set"],
-    required_probes: &["op.set_ok", "op.set_type_mismatch", "op.set_unknown", "op.set_twin", "op.exec_twin", "op.clear", "op.clone", "op.borrow", "op.take", "op.build_ok", "op.build_rejected", "op.deser", "unwind.guard", "unwind.clone", "unwind.clear", "unwind.closure", "unwind.into_value", "probe.two_tasks"],
+    required_probes: &["op.set_ok", "op.set_type_mismatch", "op.set_unknown", "op.set_twin", "op.exec_twin", "op.clear", "op.clone", "op.borrow", "op.take", "op.build_ok", "op.build_rejected", "op.deser", "unwind.guard", "unwind.clone", "unwind.clear", "unwind.closure", "unwind.into_value", "probe.two_tasks", "op.fail_burst"],
     extra: None,
 };
 
@@ -293,6 +293,22 @@ fn apply_ops(w: &World, mut ctx: ExecutionContext<'static>, mut m: ModelCtx, n: 
                     unreachable!();
                 }
                 check_ctx(w, &ctx, &m, "set")?;
+            }
+            // ---- a long run of refused writes must leave no trace
+            2 if chance(1, 40, "fail_burst") => {
+                let fi = choose(nf, "burst.field");
+                let (name, ty, _) = &w.spec.fields[fi];
+                let n = [40usize, 130, 300][choose(3, "burst.n")];
+                let bad = ill_typed(ty);
+                for _ in 0..n {
+                    if ctx.set_field_value(w.scheme.get_field(name).unwrap(), bad.to_lhs().unwrap()).is_ok() {
+                        return Err(v("set-result-differs", "type-mismatch", format!("field {name}: ill-typed value accepted during a burst")));
+                    }
+                    let _ = ctx.set_field_value(w.twin.get_field(name).unwrap(), bad.to_lhs().unwrap());
+                }
+                kernel::count("op.fail_burst");
+                tally.fails += 1;
+                check_ctx(w, &ctx, &m, "fail-burst")?;
             }
             // ---- get (sometimes preceded by a set whose value conversion unwinds: nothing may change)
             2 => {
